@@ -1,2 +1,91 @@
-/- C16 correspondence driver (stub: replaced when the property's model is built) -/
-def main : IO Unit := IO.println "stub"
+import PnVerif.Model.Fill
+/-
+  C16 correspondence driver.  One request per line on stdin, one answer per line on stdout.
+
+    SH <len> <nprocs> <rank>                                   -> <start> <count>
+    FP <nprocs> <rank> <recsize> <nrecs> <nvars> (<begin> <xsz> <varLen> <isRec> <noFill>)*
+                                                               -> <n> (<off> <len>)*      (n = -1: no write issued)
+    FR <nprocs> <rank> <recsize> <recno> <begin> <xsz> <varLen> <isRec>   -> <off> <len>
+    FB <nctype>                                                -> hex of the default fill bytes | none
+    FM <op>*   with op = S0 | S1 | D | V<varid>:<nofill>       -> <dsFill> <n> <noFill flags>*
+-/
+open PnVerif.Fill
+
+def nats (xs : List String) : Option (List Nat) := xs.mapM String.toNat?
+
+def parseFVars : Nat → List Nat → Option (List FVar)
+  | 0, [] => some []
+  | n + 1, b :: x :: l :: r :: nf :: rest =>
+    (parseFVars n rest).map fun vs => ⟨b, x, l, r != 0, nf != 0⟩ :: vs
+  | _, _ => none
+
+def hexDigit (n : Nat) : Char := if n < 10 then Char.ofNat (48 + n) else Char.ofNat (87 + n)
+def showBytes (f : List UInt8) : String :=
+  String.ofList (f.foldr (fun b acc => hexDigit (b.toNat / 16) :: hexDigit (b.toNat % 16) :: acc) [])
+
+def parseFOp (s : String) : Option FOp :=
+  if s == "S0" then some (.setFill false)
+  else if s == "S1" then some (.setFill true)
+  else if s == "D" then some .defVar
+  else if s.startsWith "V" then
+    match ((s.drop 1).toString.splitOn ":") with
+    | [v, nf] => match v.toNat?, nf.toNat? with
+      | some v, some nf => some (.varFill v (nf != 0))
+      | _, _ => none
+    | _ => none
+  else none
+
+def step (line : String) : String :=
+  let toks := (line.trimAscii.toString.splitOn " ").filter (· ≠ "")
+  match toks with
+  | ["SH", len, np, r] =>
+    match nats [len, np, r] with
+    | some [len, np, r] => let s := share len np r; s!"{s.1} {s.2}"
+    | _ => "bad-args"
+  | "FP" :: rest =>
+    match nats rest with
+    | some (np :: r :: rs :: nrecs :: nv :: nums) =>
+      match parseFVars nv nums with
+      | some vs =>
+        let pl := fillPlan np r rs nrecs vs
+        -- element bytes by element size, as harness/c16_unit.c chooses the type: 1 BYTE, 2 SHORT, 4 INT, 8 DOUBLE
+        let elem : FVar → List UInt8 := fun v =>
+          (fillBytes (if v.xsz == 1 then 1 else if v.xsz == 2 then 3 else if v.xsz == 4 then 4 else 6)).getD []
+        let buf := planBuf np r nrecs elem vs
+        let bufS := if buf.isEmpty then "-" else showBytes buf
+        if pl.isEmpty then "-1 | -"
+        else String.intercalate " " (toString pl.length :: pl.map fun s => s!"{s.off} {s.len}") ++ " | " ++ bufS
+      | none => "bad-args"
+    | _ => "bad-args"
+  | ["FR", np, r, rs, recno, b, x, l, isr] =>
+    match nats [np, r, rs, recno, b, x, l, isr] with
+    | some [np, r, rs, recno, b, x, l, isr] =>
+      let s := fillRecWrite np r rs recno ⟨b, x, l, isr != 0, false⟩
+      let elem := (fillBytes (if x == 1 then 1 else if x == 2 then 3 else if x == 4 then 4 else 6)).getD []
+      let buf := fillBuf elem (share l np r).2
+      s!"{s.off} {s.len} | " ++ (if buf.isEmpty then "-" else showBytes buf)
+    | _ => "bad-args"
+  | ["FB", t] =>
+    match t.toNat? with
+    | some t => match fillBytes t with
+      | some bs => showBytes bs
+      | none => "none"
+    | none => "bad-args"
+  | "FM" :: ops =>
+    match ops.mapM parseFOp with
+    | some ops =>
+      let s := frun FState.init ops
+      String.intercalate " " ((if s.dsFill then "1" else "0") :: toString s.noFill.length ::
+        s.noFill.map fun b => if b then "1" else "0")
+    | none => "bad-args"
+  | _ => "bad-op"
+
+partial def loop (h : IO.FS.Stream) (out : IO.FS.Stream) : IO Unit := do
+  let line ← h.getLine
+  if line.isEmpty then return ()
+  out.putStrLn (step line)
+  loop h out
+
+def main : IO Unit := do
+  let out ← IO.getStdout
+  loop (← IO.getStdin) out
